@@ -57,6 +57,12 @@ Section WriteFromEmit.
     - eapply P_trans; [exact H1|]. apply P_emit. apply ok_write.
     - destruct w; cbn [fst]; (eapply P_trans; [exact H1|]); (eapply P_trans; [apply P_wfaults|]); apply P_emit; auto.
   Qed.
+  Hypothesis P_keys : forall c x, P c (c <| k_keys := x |>).
+  Lemma send_from_emit c op r p : P c (fst (send_frame c op r p)).
+  Proof.
+    unfold send_frame, pop_key. destruct (k_keys c) as [|k ks]; [apply write_from_emit|].
+    eapply P_trans; [apply P_keys|apply write_from_emit].
+  Qed.
 End WriteFromEmit.
 
 (* ---------- a generic "frame" argument ----------
@@ -70,7 +76,8 @@ Section Frame.
   (* which trace items may be appended: the events are restricted per lemma *)
   Variable ok_item : titem -> Prop.
   Hypothesis P_emit : forall c x, ok_item x -> P c (emit x c).
-  Hypothesis P_write : forall c d f, P c (fst (write c d f)).     (* the one place where bytes reach the socket *)
+  (* the one place where frames reach the socket; opcodes are 4-bit *)
+  Hypothesis P_send : forall c op r p, op < 16 -> P c (fst (send_frame c op r p)).
   Hypothesis ok_call : forall r, ok_item (TCall r).
   Hypothesis ok_sockclose : ok_item TSockClose.
   Hypothesis ok_deflate : forall e i, ok_item (TDeflate e i).
@@ -99,33 +106,28 @@ Section Frame.
   Proof. unfold pop_key. destruct (k_keys c); cbn [snd]; auto. Qed.
   Lemma fr_pop_wfault c : P c (snd (pop_wfault c)).
   Proof. unfold pop_wfault. destruct (k_wfaults c); cbn [snd]; auto. Qed.
-  Lemma fr_write c d f : P c (fst (write c d f)).
-  Proof. apply P_write. Qed.
-  Lemma fr_send_frame c op r p : P c (fst (send_frame c op r p)).
-  Proof.
-    unfold send_frame. pose proof (fr_pop_key c) as H. destruct (pop_key c) as [k c1]. cbn [snd] in H.
-    tr; [exact H|apply fr_write].
-  Qed.
+  Lemma fr_send_frame c op r p : op < 16 -> P c (fst (send_frame c op r p)).
+  Proof. apply P_send. Qed.
   Lemma fr_ws_close c code reason : P c (fst (ws_close c code reason)).
   Proof.
     unfold ws_close. destruct (k_closed c); [apply P_refl|]. destruct (k_closing c); [apply P_refl|].
     destruct (125 <? _); [apply P_refl|].
-    pose proof (fr_send_frame c OP_CLOSE false (close_payload code reason)) as H.
+    pose proof (fr_send_frame c OP_CLOSE false (close_payload code reason) ltac:(reflexivity)) as H.
     destruct (send_frame _ _ _ _) as [c1 r]. cbn [fst] in *.
     tr; [exact H|]. tr; [apply P_closing|]. apply P_time.
   Qed.
-  Lemma fr_send_data c op p z : P c (fst (send_data c op p z)).
+  Lemma fr_send_data c op p z : op < 16 -> P c (fst (send_data c op p z)).
   Proof.
-    unfold send_data. destruct (k_deflate c) as [d|]; [|apply fr_send_frame].
-    destruct z; [|apply fr_send_frame].
+    intros Hop. unfold send_data. destruct (k_deflate c) as [d|]; [|apply fr_send_frame; exact Hop].
+    destruct z; [|apply fr_send_frame; exact Hop].
     destruct (k_ctape c) as [|zz zs]; destruct (c_reset d);
-      repeat (first [apply fr_send_frame | tr; [|apply fr_send_frame]]);
+      repeat (first [apply fr_send_frame; exact Hop | tr; [|apply fr_send_frame; exact Hop]]);
       repeat (first [apply P_refl | apply fr_emit; apply ok_deflate | apply P_zout | apply P_ctape | tr; [|apply P_zout] | tr; [|apply fr_emit; apply ok_deflate]]).
   Qed.
   Lemma fr_api_call c a : P c (fst (api_call c a)).
   Proof.
-    destruct a; cbn [api_call]; try apply fr_send_data; try apply fr_ws_close;
-      destruct (125 <? _); try apply P_refl; apply fr_send_frame.
+    destruct a; cbn [api_call]; try (apply fr_send_data; reflexivity); try apply fr_ws_close;
+      destruct (125 <? _); try apply P_refl; apply fr_send_frame; reflexivity.
   Qed.
   Lemma fr_close_socket c : P c (close_socket c).
   Proof. unfold close_socket. destruct (k_sock c); [|apply P_refl]. tr; [apply P_sock|apply fr_emit; exact ok_sockclose]. Qed.
@@ -157,7 +159,7 @@ Section Frame.
           assert (H : P c (fst (deliver a c e))) by (apply fr_deliver; first [exact ok_poll | exact ok_unresponsive]);
           destruct (deliver a c e) as [? ?]; cbn [fst snd] in H
       | |- context [send_frame ?c ?o ?r ?p] =>
-          let H := fresh "Hs" in pose proof (fr_send_frame c o r p) as H; destruct (send_frame c o r p) as [? ?]; cbn [fst snd] in H
+          let H := fresh "Hs" in pose proof (fr_send_frame c o r p ltac:(reflexivity)) as H; destruct (send_frame c o r p) as [? ?]; cbn [fst snd] in H
       | |- context [if ?b then _ else _] =>
           lazymatch b with
           | context [match _ with _ => _ end] => fail
@@ -308,7 +310,7 @@ End Frame.
 (* ---------- instance: the parser state is untouched ---------- *)
 Definition same_ps (c c' : conn) : Prop := k_ps c' = k_ps c.
 Ltac inst_frame L := first [eapply L with (P := same_ps) (ok_item := fun _ => True) | eapply L with (P := same_ps)];
-                       try (intros; apply write_from_emit with (ok_item := fun _ => True));
+                       try (intros; apply send_from_emit with (ok_item := fun _ => True));
                        try (intros; reflexivity); try (unfold same_ps; intros; congruence); try (intros; exact I);
                        try (intros e0; destruct e0; exact I).
 
@@ -367,7 +369,7 @@ Section WithCfg.
   (* once closed, always closed *)
   Definition closed_mono (c c' : conn) : Prop := k_closed c = true -> k_closed c' = true.
   Ltac inst_mono L := first [eapply L with (P := closed_mono) (ok_item := fun _ => True) | eapply L with (P := closed_mono)];
-                      try (intros; apply write_from_emit with (ok_item := fun _ => True)); try (unfold closed_mono; intros; cbn; auto; fail); try (unfold closed_mono; intros; eauto);
+                      try (intros; apply send_from_emit with (ok_item := fun _ => True)); try (unfold closed_mono; intros; cbn; auto; fail); try (unfold closed_mono; intros; eauto);
                       try (intros; exact I).
 
   Lemma closed_feed_yield c e post : (forall c, closed_mono c (fst (post c))) -> closed_mono c (fst (feed_yield cf app c e post)).
